@@ -74,6 +74,30 @@ def check_frame(frame: bytes, begin: bytes = BEGIN):
     return None
 
 
+def consistency(frame: bytes):
+    """None if the frame's BodyLength and CheckSum are consistent with its bytes,
+    else 'bodylength' / 'checksum' / 'shape' (independent of asyncfix.codec)."""
+    if not frame.startswith(b"8=") or len(frame) < 20:
+        return "shape"
+    i = frame.find(SOH + b"9=")
+    if i < 0:
+        return "shape"
+    j = frame.find(SOH, i + 1)
+    digits = frame[i + 3 : j]
+    if j < 0 or not digits.isdigit():
+        return "bodylength"
+    trailer = frame[-7:]
+    if not (trailer.startswith(b"10=") and trailer.endswith(SOH) and trailer[3:6].isdigit()):
+        return "shape"
+    if frame[-8:-7] != SOH:
+        return "shape"
+    if int(trailer[3:6]) != checksum(frame[:-7]):
+        return "checksum"
+    if int(digits) != len(frame) - 7 - (j + 1):
+        return "bodylength"
+    return None
+
+
 def split_stream(data: bytes, begin: bytes = BEGIN):
     """Split a byte stream that must be a pure concatenation of frames.
 
